@@ -200,7 +200,7 @@ def generate_schedules(sysd, gen, seed, workdir, timeout=600):
 
 
 def run_harness(sysname, out_path, stats_path, schedules=None, random=0, length=40, seed=1, mode=None, timeout=3000):
-    cmd = [CWV, sysname, "--out", out_path, "--stats", stats_path, "--seed", str(seed)]
+    cmd = [CWV, sysname, "--out", out_path, "--stats", stats_path, "--seed", str(seed), "--fixtures", os.path.join(ROOT, "fixtures")]
     if schedules:
         cmd += ["--schedules", schedules]
     if random:
